@@ -61,6 +61,52 @@ fn garbage(name: &str) -> Vec<u8> {
     format!("\u{1}\u{2}this is not DER: {name}").into_bytes()
 }
 
+/// Re-encodes the outermost SEQUENCE of a DER object so that it is valid
+/// BER but not DER: with the indefinite length form (`30 80 … 00 00`) or,
+/// for `long_len`, with a definite length using one length octet more than
+/// necessary. Nothing covered by a signature changes.
+pub fn reframe_ber(der: &[u8], long_len: bool) -> Vec<u8> {
+    assert_eq!(der[0], 0x30, "expected a SEQUENCE");
+    let header = match der[1] {
+        n if n < 0x80 => 2,
+        n => 2 + usize::from(n & 0x7f),
+    };
+    let content = &der[header..];
+    let mut res = Vec::with_capacity(der.len() + 4);
+    if long_len {
+        let len = content.len();
+        let octets: Vec<u8> = len.to_be_bytes().iter().copied().skip_while(|b| *b == 0).collect();
+        res.push(0x30);
+        res.push(0x80 | (octets.len() as u8 + 1));
+        res.push(0);
+        res.extend_from_slice(&octets);
+        res.extend_from_slice(content);
+    }
+    else {
+        res.extend_from_slice(&[0x30, 0x80]);
+        res.extend_from_slice(content);
+        res.extend_from_slice(&[0, 0]);
+    }
+    res
+}
+
+/// Is this the encoding of a SEQUENCE whose outermost length is not DER
+/// (indefinite or not minimal)?
+pub fn is_ber_framed(data: &[u8]) -> bool {
+    if data.len() < 2 || data[0] != 0x30 { return false }
+    match data[1] {
+        0x80 => true,
+        n if n < 0x80 => false,
+        n => {
+            let count = usize::from(n & 0x7f);
+            if data.len() < 2 + count { return false }
+            let octets = &data[2..2 + count];
+            // Leading zero octet, or long form for a length below 128.
+            octets.first() == Some(&0) || (count == 1 && octets[0] < 0x80)
+        }
+    }
+}
+
 fn flip_last(mut data: Vec<u8>) -> Vec<u8> {
     if let Some(last) = data.last_mut() { *last ^= 0x01 }
     data
@@ -450,6 +496,12 @@ impl Builder {
                     let (bytes, meaning) = replacement.expect("replacement");
                     files.push(BuiltFile { uri, name: name.into(), bytes, meaning });
                 }
+                Publish::Ber | Publish::BerLongLen => {
+                    let bytes = reframe_ber(&bytes, matches!(publish, Publish::BerLongLen));
+                    // The manifest lists what is served.
+                    if let Some(last) = entries.last_mut() { last.1 = sha256(&bytes) }
+                    files.push(BuiltFile { uri, name: name.into(), bytes, meaning });
+                }
             }
         };
         let crl = self.crl(ca, &version.crl);
@@ -482,6 +534,10 @@ impl Builder {
                 // this is still the same manifest (with other bytes).
                 let mut mft = mft;
                 mft.push(0);
+                files.push(BuiltFile { uri: ca.mft_uri(), name: ca.mft.clone(), bytes: mft, meaning: mft_meaning });
+            }
+            Publish::Ber | Publish::BerLongLen => {
+                let mft = reframe_ber(&mft, matches!(version.mft_publish, Publish::BerLongLen));
                 files.push(BuiltFile { uri: ca.mft_uri(), name: ca.mft.clone(), bytes: mft, meaning: mft_meaning });
             }
             _ => files.push(BuiltFile { uri: ca.mft_uri(), name: ca.mft.clone(), bytes: mft, meaning: mft_meaning }),
